@@ -93,7 +93,7 @@ def fns (i : Nat) (o : Obj) : Bool :=
   | 1 => o.name == "a"
   | 2 => true
   | 3 => o.kind == "pod"
-  | _ => false
+  | n => if n ≥ 10 then AL.lookup "l" o.labels == some (toString (n - 10)) else false
 
 def decBool : SExp → Option Bool
   | .atom "true" => some true
